@@ -88,7 +88,7 @@ CHECKS = {
     "C02": dict(
         engine="mcx", category="model_checking", design="5/C02",
         technique="man-in-the-middle exploration of the real handshake: one fresh real handshake per substitution (every byte position x xor masks x CRC fix-up of all three datagrams; field-level forgeries from attacker keys and another honest session; wrong-token challenge responses), plus deviation-bounded exploration (<=2/3 of drop/dup/delay) of one and two concurrent handshakes with cross-delivery; oracles recompute signature verification, ECDH+HKDF and AES-GCM with the cryptography primitives directly",
-        text="2.1e3 (quick) / 3.2e3 byte mutants, 123 forgeries, 2.7e3 (quick) schedule executions. (a) a client with a key or CONNECTED must have processed a hello whose payload verifies under the pinned key and whose parameters it adopted exactly; (b) honest runs agree on one 16-byte key and token; (c) every connect event is preceded by a datagram from that address that decrypts under the connection's key and carries the issued token.",
+        text="2.1e3 (quick) / 3.2e3 byte mutants, 123 forgeries, 17 post-handshake injections (no end may give up the agreed key/token), 2.7e3 (quick) schedule executions. (a) a client with a key or CONNECTED must have processed a hello whose payload verifies under the pinned key and whose parameters it adopted exactly; (b) honest runs agree on one 16-byte key and token; (c) every connect event is preceded by a datagram from that address that decrypts under the connection's key and carries the issued token.",
         note="cryptographic primitives trusted; <=2 (quick) / 3 deviations in the schedule part; replay of a genuinely signed hello of another session is allowed by the statement"),
     "C03": dict(
         engine="mcx", category="model_checking", design="5/C03",
@@ -98,7 +98,7 @@ CHECKS = {
     "C12": dict(
         engine="mcx", category="model_checking", design="5/C12",
         technique="explicit-state exploration of the idle real stack per configuration with a canonical state on ages and relative sequence numbers until the state graph closes (cycle), exhaustive frame-jitter sequences (2^10), every cut phase of a keep-alive period, every subset x order x before/after split of the client setters and orders of the ServerContext setters, with timing oracles on the virtual clock",
-        text="38 (quick) / 45 idle configurations (5 keep-alive intervals x 2 timeouts x 5 frame lengths): 30 close into a cycle (proof of 'stays up indefinitely' under uniform dyadic frames), the 1/60 s rows are run to a 20/60 s horizon; 6144 jitter executions; 67 cut cases (server disconnect within one tick after the timeout, client DROPPED within one frame after 5 s); 12 unanswered-connect cases; 49 client-setter and 3/120 server-setter cases with observed effect.",
+        text="38 (quick) / 45 idle configurations (5 keep-alive intervals x 2 timeouts x 5 frame lengths): 30 close into a cycle (proof of 'stays up indefinitely' under uniform dyadic frames), the 1/60 s rows are run to a 20/60 s horizon; 6144 jitter executions; 67 cut cases (server disconnect within one tick after the timeout, client DROPPED within one frame after 5 s); 24 unanswered-connect cases (timeout set before / right after connect()); 106 client-setter cases (every subset x order x before / during the handshake / after connect) and 3/120 server-setter orders, each with the effect observed.",
         note="'one send tick' read leniently (smallest multiple of the frame exceeding send_interval); relative-sequence hashing relies on C08; no network faults other than cuts"),
     "C10": dict(
         engine="mcx", category="model_checking", design="5/C10",
